@@ -98,6 +98,22 @@ def ipv6_connections():
     return out
 
 
+def h2_connections():
+    """cleartext HTTP/2 exchanges (prior knowledge: preface, SETTINGS, request HEADERS on two streams; the server's SETTINGS, HEADERS,
+    DATA), over IPv4 and IPv6: the HTTP fields of the unified analyzer are those of the HTTP analyzer for every protocol version"""
+    from props import c09
+    out = []
+    synopts = b"\x02\x04\x05\xb4\x04\x02\x08\x0a\x00\x00\x30\x00\x00\x00\x00\x00\x01\x03\x03\x07"
+    for k, (R, S) in enumerate(((c09.REQ_E, c09.RESP_E), (c09.REQ_F, c09.RESP_F))):
+        a4, b4, cp = (10, 7, 3, 1 + k), (10, 7, 3, 100), 43000 + k
+        out += [c10.frame(a4, b4, cp, 80, 100, 0, 0x02, opts=synopts, ipid=9100 + 10 * k), c10.frame(b4, a4, 80, cp, 700, 101, 0x12, opts=synopts, ipid=9101 + 10 * k, ttl=128),
+                c10.frame(a4, b4, cp, 80, 101, 701, 0x18, R, ipid=9102 + 10 * k), c10.frame(b4, a4, 80, cp, 701, 101 + len(R), 0x18, S, ipid=9103 + 10 * k)]
+        a6, b6 = bytes([0x20, 1, 0xd, 0xb8] + [0] * 11 + [0x20 + k]), bytes([0x20, 1, 0xd, 0xb8] + [0] * 11 + [0x99])
+        out += [c10.frame6(a6, b6, cp, 8080, 100, 0, 0x02, opts=synopts), c10.frame6(b6, a6, 8080, cp, 700, 101, 0x12, opts=synopts, hlim=128),
+                c10.frame6(a6, b6, cp, 8080, 101, 701, 0x18, R), c10.frame6(b6, a6, 8080, cp, 701, 101 + len(R), 0x18, S)]
+    return out
+
+
 def run(tier, v):
     wd = vlib.workdir(PID)
     vlib.build_harness()
@@ -134,7 +150,7 @@ def run(tier, v):
         traces.append(sorted(frames, key=lambda f: 0) if False else frames)
     # ordered variant: the un-shuffled concatenation gives complete connections
     tr = c10.build_traces(rng, 5, nrich=6)
-    traces.append([f for crate in ("tcp", "http", "tls") for _, f in tr[crate]] + partly_rejected_connections() + ipv6_connections())
+    traces.append([f for crate in ("tcp", "http", "tls") for _, f in tr[crate]] + partly_rejected_connections() + ipv6_connections() + h2_connections())
     # a trace with IPv4 and IPv6 handshakes and exchanges under a database in which every observation is a signature of both tables of
     # its protocol, labelled by table (see C02 table selection): labels must agree between the unified and the protocol analyzers
     from props import c02
